@@ -703,8 +703,9 @@ func adSessionExec(s adSession, em *emitter, maxHung int) {
 		}
 		lines, outs, ok, late := adRunPhase(s.KeygenT, s.Adapter, s.IDs, s.Thr, "keygen", nil, nil, nil, s.KeygenProbe, adDur(s.KeygenMs, def))
 		if late && s.KeygenMs <= 0 && !adPanicked(lines) {
-			// a run that does not finish is repeated once: under load the adapter itself can lose the last messages of a party
-			// that finishes early (KeyGen/Sign close closeChan while messages are still queued in `out`)
+			// a run that does not finish is repeated once (before the repair "messages queued by the protocol are still sent
+			// when the protocol ends" the adapter lost the last messages of a party that finished in a burst under load);
+			// the engine reports how often this was needed
 			em.lines([]obj{{"e": "retried", "t": s.KeygenT, "ph": "keygen", "ad": s.Adapter}})
 			lines, outs, ok, late = adRunPhase(s.KeygenT, s.Adapter, s.IDs, s.Thr, "keygen", nil, nil, nil, s.KeygenProbe, adDur(s.KeygenMs, def))
 		}
